@@ -532,6 +532,7 @@ func main() {
 	translatePrecompFull(*repo, writeImp)
 	translateMultiExpDriver(*repo, writeImp)
 	translateFrCodec(*repo, writeImp)
+	translateBatchConv(*repo, writeImp)
 	fmt.Println("extract: ok")
 }
 
